@@ -1,3 +1,4 @@
+mod abort;
 mod c07;
 mod codec;
 mod common;
@@ -102,11 +103,32 @@ fn main() {
             let budget_s = env_u64("VERIF_BUDGET_S").map(|x| x as f64).unwrap_or(if tier == "quick" { 150.0 } else { 3000.0 });
             let workers = env_u64("VERIF_WORKERS").unwrap_or(16) as usize;
             let plan = CheckPlan { prop: prop.clone(), tier, seed, engines: plan_for(prop, args[3].as_str()), budget_s, workers };
+            abort::install(&std::env::var("VERIF_ROOT").unwrap_or("/verif".into()));
             driver::run_check(&plan).exit
         }
         Some("replay") => {
             let Some(path) = args.get(2) else { std::process::exit(usage()) };
             driver::cmd_replay(&engines(), path, args.iter().any(|a| a == "-v"))
+        }
+        Some("isolate") | Some("abortreplay") => {
+            // isolate <prop> <tier> <engine index in the plan> <run_index> <tee>
+            // abortreplay <prop> <tier> <engine index in the plan> <run_index> <tee> <out>
+            let prop = args.get(2).cloned().unwrap_or_default();
+            let tier = args.get(3).cloned().unwrap_or("quick".into());
+            let eidx: usize = args.get(4).and_then(|s| s.parse().ok()).unwrap_or(0);
+            let idx: u64 = args.get(5).and_then(|s| s.parse().ok()).unwrap_or(0);
+            let tee = args.get(6).cloned().unwrap_or_default();
+            if !props::ALL.contains(&prop.as_str()) {
+                std::process::exit(usage());
+            }
+            let plan = plan_for(&prop, &tier);
+            let Some((eng, _)) = plan.get(eidx) else { std::process::exit(usage()) };
+            let seed = env_u64("VERIF_SEED").unwrap_or(1);
+            if args[1] == "isolate" {
+                driver::cmd_isolate(eng, &prop, seed, idx, &tee)
+            } else {
+                driver::cmd_abortreplay(eng, &prop, seed, idx, &tee, &args.get(7).cloned().unwrap_or("/tmp/abort.replay.json".into()))
+            }
         }
         Some("mkreplay") => {
             // mkreplay <prop> <engine> <run_index> <out> [known]
